@@ -75,6 +75,14 @@ func genC01(seed uint64, tier string) *plan.Plan {
 		pl.Cfg["refresh"] = 2
 		pl.Cfg["ttl"] = 5
 	}
+	hugeTTL := false
+	if (tr == 1 || tr == 3) && !longUDP && pl.Cfg["lossy"] == 0 && r.IntN(4) == 0 {
+		// a collector whose template lifetime is "practically for ever": weeks, months, or the largest
+		// value the field holds, and a session with seconds between its sends. No template is
+		// refreshed in that time and none may expire.
+		pl.Cfg["ttl"] = []int64{4294967, 4294968, 5184000, 31536000, 4294967295}[r.IntN(5)]
+		hugeTTL = true
+	}
 	if (tr == 0 || tr == 2) && r.IntN(4) == 0 {
 		// a stream collector that is configured with a template lifetime (which has no meaning on a
 		// stream: templates live as long as the session) and a session that goes on for much longer
@@ -122,7 +130,7 @@ func genC01(seed uint64, tier string) *plan.Plan {
 			if r.IntN(5) == 0 {
 				pl.Ops = append(pl.Ops, plan.Op{K: "adv", T: sess, A: int64(r.IntN(3000)) * int64(time.Millisecond)})
 			}
-			if longUDP && r.IntN(3) == 0 {
+			if (longUDP || hugeTTL) && r.IntN(3) == 0 {
 				pl.Ops = append(pl.Ops, plan.Op{K: "adv", T: sess, A: int64(1+r.IntN(9)) * int64(time.Second)})
 			}
 		}
